@@ -45,6 +45,12 @@
 long a_r2p[CAP], b_r2p[CAP];
 int a_p2r[CAP], b_p2r[CAP];
 struct Group g_a, g_b;
+/* operator new of Group is modelled as handing out this designated object (one allocation per call path) */
+long n_r2p[CAP];
+int n_p2r[CAP];
+struct Group g_new;
+struct Group* g_out; /* where the operations store their result */
+int g_ranks[CAP];
 struct Actor g_actor;    /* the parent actor s4u::Actor::by_pid may find */
 struct Actor* g_parent;  /* ghost: result of by_pid (NULL = no such actor) */
 long g_ppid;             /* ghost: its parent pid */
@@ -63,11 +69,22 @@ void F2C__ctor(struct F2C* self) __CPROVER_requires(1) __CPROVER_assigns() __CPR
 void Group__ctor(struct Group* self, int size)
     __CPROVER_requires(__CPROVER_is_fresh(self, sizeof(*self)) && 0 <= size && size <= CAP)
     __CPROVER_assigns(*self)
-    __CPROVER_ensures(__CPROVER_is_fresh(self->rank_to_pid_map_.d, VF_CAP * sizeof(long)) &&
-                      __CPROVER_is_fresh(self->pid_to_rank_map_.d, VF_CAP * sizeof(int)))
     __CPROVER_ensures(NEWSHAPE(self) && N(self) == (unsigned long)size && PN(self) == (unsigned long)size)
     /*@ ctor_sizes */
     __CPROVER_ensures(ALLA(CTOR_ELEM, self)) /*@ ctor_all_ranks_unmapped */;
+
+/* new Group(size): ASSUMED = "allocate + the constructor contract above"; the allocation is the designated object g_new */
+#define GN (&g_new)
+#define POOL_READY (g_new.rank_to_pid_map_.d == n_r2p && g_new.pid_to_rank_map_.d == n_p2r)
+#define POOL_FRAME                                                                                                     \
+  g_new.rank_to_pid_map_.h, g_new.rank_to_pid_map_.n, g_new.rank_to_pid_map_.cap, g_new.pid_to_rank_map_.h,           \
+      g_new.pid_to_rank_map_.n, g_new.pid_to_rank_map_.cap, g_new.refcount_, __CPROVER_object_whole(n_r2p),            \
+      __CPROVER_object_whole(n_p2r)
+struct Group* Group__new(int size)
+    __CPROVER_requires(0 <= size && size <= CAP && POOL_READY)
+    __CPROVER_assigns(POOL_FRAME)
+    __CPROVER_ensures(__CPROVER_return_value == GN && NEWSHAPE(GN) && N(GN) == (unsigned long)size &&
+                      PN(GN) == (unsigned long)size && ALLA(CTOR_ELEM, GN));
 
 /* set_mapping(pid, rank): raw effect on both vectors; out-of-range rank is a no-op */
 #define SM_IN (0 <= rank && (unsigned long)rank < N(self))
@@ -129,36 +146,33 @@ int Group__compare(struct Group* self, struct Group* group2)
           __CPROVER_decreases((long)N(self) - i)
 
 /* incl(n, ranks): rank i of the new group is rank ranks[i] of this group (MPI-3.1 6.3.2); MPI requires valid, distinct ranks */
-#define NG (*newgroup)
+#define NEW_FRAME g_out, POOL_FRAME
 #define INCL_VALID(k) (!((k) < RN_) || (0 <= RA_[k] && (unsigned long)RA_[k] < N(self)))
 #define INCL_DISTINCT(i, j) (!((j) < RN_) || RA_[i] != RA_[j])
-#define INCL_ELEM(k) (!((k) < RN_) || PID(NG, k) == PID(self, RA_[k]))
-#define INCL_CONTRACT                                                                                                  \
-  __CPROVER_requires(RSHAPE(self) && WF(self) && vf_exc == 0 && 0 <= RN_ && RN_ <= CAP &&                              \
-                     __CPROVER_r_ok(RA_, CAP * sizeof(int)) && __CPROVER_is_fresh(newgroup, sizeof(*newgroup)))        \
-      __CPROVER_requires(ALL(INCL_VALID) && ALLPAIRS(INCL_DISTINCT)) __CPROVER_assigns(*newgroup)                      \
-          __CPROVER_ensures(__CPROVER_return_value == SUCCESS && vf_exc == 0)                                          \
-              __CPROVER_ensures(RN_ != 0 || NG == &smpi_MPI_GROUP_EMPTY)                                               \
-                  __CPROVER_ensures(RN_ == 0 ||                                                                        \
-                                    (__CPROVER_is_fresh(NG, sizeof(struct Group)) &&                                   \
-                                     __CPROVER_is_fresh(NG->rank_to_pid_map_.d, VF_CAP * sizeof(long)) &&              \
-                                     __CPROVER_is_fresh(NG->pid_to_rank_map_.d, VF_CAP * sizeof(int)) && NEWSHAPE(NG)))
+#define INCL_ELEM(k) (!((k) < RN_) || PID(GN, k) == PID(self, RA_[k]))
+#define INCL_PRE                                                                                                       \
+  (RSHAPE(self) && WF(self) && vf_exc == 0 && 0 <= RN_ && RN_ <= CAP && RA_ == g_ranks &&      \
+   newgroup == &g_out && POOL_READY && ALL(INCL_VALID) && ALLPAIRS(INCL_DISTINCT))
+#define NEW_IS_GN (*newgroup == GN && NEWSHAPE(GN))
 
 #define RN_ n
 #define RA_ ranks
-int Group__incl(struct Group* self, int n, int* ranks, struct Group** newgroup) __CPROVER_requires(1) INCL_CONTRACT
-    __CPROVER_ensures(n == 0 || (N(NG) == (unsigned long)n && WF(NG))) /*@ incl_result_is_wellformed_group_of_n */
+int Group__incl(struct Group* self, int n, int* ranks, struct Group** newgroup)
+    __CPROVER_requires(INCL_PRE)
+    __CPROVER_assigns(NEW_FRAME)
+    __CPROVER_ensures(__CPROVER_return_value == SUCCESS && vf_exc == 0)
+    __CPROVER_ensures(n != 0 || *newgroup == &smpi_MPI_GROUP_EMPTY) /*@ incl_of_nothing_is_group_empty */
+    __CPROVER_ensures(n == 0 || (NEW_IS_GN && N(GN) == (unsigned long)n && WF(GN))) /*@ incl_result_is_wellformed_group_of_n */
     __CPROVER_ensures(n == 0 || ALL(INCL_ELEM)) /*@ incl_rank_i_is_member_ranks_i */;
 
 #define INCL_INV_R(k)                                                                                                  \
-  (!((k) < i) || (PID(NG, k) == PID(self, ranks[k]) && PID(NG, k) >= 0 && (unsigned long)PID(NG, k) < PN(NG) &&        \
-                  RK(NG, PID(NG, k)) == (k)))
+  (!((k) < i) || (PID(GN, k) == PID(self, ranks[k]) && PID(GN, k) >= 0 && (unsigned long)PID(GN, k) < PN(GN) &&        \
+                  RK(GN, PID(GN, k)) == (k)))
 #define INCL_INV_P(p)                                                                                                  \
-  (!((p) < PN(NG)) || RK(NG, p) == UNDEF || (0 <= RK(NG, p) && RK(NG, p) < i && PID(NG, RK(NG, p)) == (p)))
+  (!((p) < PN(GN)) || RK(GN, p) == UNDEF || (0 <= RK(GN, p) && RK(GN, p) < i && PID(GN, RK(GN, p)) == (p)))
 #define VF_LOOP_Group__incl_0                                                                                          \
-  __CPROVER_assigns(i, NG->pid_to_rank_map_.n, __CPROVER_object_whole(NG->pid_to_rank_map_.d),                         \
-                    __CPROVER_object_whole(NG->rank_to_pid_map_.d))                                                    \
-      __CPROVER_loop_invariant(0 <= i && i <= n && PN(NG) <= CAP && ALL(INCL_INV_R) && ALL(INCL_INV_P))                \
+  __CPROVER_assigns(i, g_new.pid_to_rank_map_.n, __CPROVER_object_whole(n_p2r), __CPROVER_object_whole(n_r2p))         \
+      __CPROVER_loop_invariant(0 <= i && i <= n && PN(GN) <= CAP && ALL(INCL_INV_R) && ALL(INCL_INV_P))              \
           __CPROVER_decreases(n - i)
 #undef RN_
 #undef RA_
@@ -192,6 +206,8 @@ static void setup(void)
   g_parent               = nondet_bool() ? NULL : &g_actor;
   g_ppid                 = nondet_long();
   vf_exc                 = 0;
+  g_new.rank_to_pid_map_.d = n_r2p;
+  g_new.pid_to_rank_map_.d = n_p2r;
 }
 static struct Group* pick_group(void)
 {
@@ -234,7 +250,7 @@ void harness(void)
 void harness(void)
 {
   setup();
-  Group__compare(pick_group(), pick_group());
+  Group__compare(&g_a, &g_b);
   VF_CANARY_POINT;
 }
 #endif
@@ -242,9 +258,7 @@ void harness(void)
 void harness(void)
 {
   setup();
-  int ranks[CAP];
-  struct Group* out;
-  Group__incl(pick_group(), nondet_int(), ranks, &out);
+  Group__incl(&g_a, nondet_int(), g_ranks, &g_out);
   VF_CANARY_POINT;
 }
 #endif
